@@ -97,6 +97,8 @@ def selftest():
     # BLAKE-256("") and BLAKE-512("") (widely published)
     assert blake(256, b"").hex() == "716f6e863f744b9ac22c97ec7b76ea5f5908bc5b2f67c61510bfc4751384ea7a"
     assert blake(512, b"").hex().startswith("a8cfbbd73726062df0c6864dda65defe58ef0cc52a5625090fa17601e1eecd1b")
+    assert blake(256, b"The quick brown fox jumps over the lazy dog").hex() == "7576698ee9cad30173080678e5965916adbb11cb5245d386bf1ffda1cb26c9d7"
+    assert blake(512, b"The quick brown fox jumps over the lazy dog").hex().startswith("1f7e26f63b6ad25a0896fd978fd050a1766391d2fd0471a7")
     import random
     rnd = random.Random(3)
     for n in (224, 256, 384, 512):          # resumption: two blocks + tail == resume after the first two compressions
